@@ -11,7 +11,7 @@ import cases as C  # noqa
 import corr  # noqa
 from lib import f32, f2h, h2f  # noqa
 
-MODULES = ["InovesaModel.Props.C16"]
+MODULES = ["InovesaModel.Props.C16", "InovesaModel.Props.TieFactory", "InovesaModel.Props.TieImpedance"]
 LEVEL = "proof"
 C_LIGHT = 2.99792458e8
 
